@@ -65,6 +65,18 @@ class C(P):
     a = 5
     z: str = Attr(default="z", init=False)
 ''',
+    "lazy_parent_with_new": '''
+class P:
+    a: int = 1
+    def __new__(cls, *args, **kwargs):
+        inst = object.__new__(cls)
+        object.__setattr__(inst, "made_by_p_new", True)
+        return inst
+
+@spec_class%(deco)s
+class C(P):
+    z: int = 2
+''',
     "inherit_collision": '''
 class P:
     a: int = 1
@@ -103,7 +115,7 @@ class C:
 ''',
 }
 KEYED = {"keyed_preparer"}
-PARENT_DECORATED = {"inherit_lazy_parent", "inherit_collision"}
+PARENT_DECORATED = {"inherit_lazy_parent", "inherit_collision", "lazy_parent_with_new"}
 
 PRELUDE = '''
 import dataclasses
